@@ -110,7 +110,7 @@ class Run:
             cmd += ["-kind", kind]
         env = dict(os.environ, GOMAXPROCS="4", GOMEMLIMIT="6GiB")
         try:
-            p = subprocess.run(cmd, env=env, stdout=subprocess.PIPE, stderr=subprocess.STDOUT, text=True, timeout=1800)
+            p = subprocess.run(cmd, env=env, stdout=subprocess.PIPE, stderr=subprocess.STDOUT, text=True, timeout=900)
         except subprocess.TimeoutExpired:
             raise Infra("harness timed out: " + " ".join(cmd))
         if p.returncode not in (0, 3):
